@@ -239,6 +239,11 @@ pub fn check_a(prop: &str, tier: Tier, selftest: Value) -> i32 {
             None => {
                 // confirm by replaying twice in fresh processes
                 let confirmed = find_scenario(prop, &v.scenario).map(|it| {
+                    {
+                        let mut g = crate::sched::SHARED_KEYS.lock().unwrap();
+                        g.clear();
+                        g.extend(v.shared.iter().copied());
+                    }
                     let a = replay_once(&*it.run, &v.choices, 15);
                     let b = replay_once(&*it.run, &v.choices, 15);
                     match (a, b) {
@@ -346,6 +351,14 @@ pub fn replay_file(path: &str) -> i32 {
             return 2;
         }
     };
+    // the private-location reduction must run with the set the exploration had learned
+    if let Some(a) = v["shared_locations"].as_array() {
+        let mut g = crate::sched::SHARED_KEYS.lock().unwrap();
+        g.clear();
+        for k in a {
+            g.push((k[0].as_u64().unwrap_or(0) as u32, k[1].as_u64().unwrap_or(0) as u32));
+        }
+    }
     let a = replay_once(&*it.run, &choices, 15);
     let b = replay_once(&*it.run, &choices, 15);
     match (a, b) {
